@@ -20,8 +20,10 @@ func NewIntegerIter(n int) Iterator[pair[int, any]] {
 	return &integerIter{n: n, i: -1}
 }
 
-func NewStringIter(str string) Iterator[pair[int, rune]] {
-	return &stringIter{str: str}
+// generic over the operand's type: a range over a defined string type
+// (type Name string) passes a Name, which is not assignable to string
+func NewStringIter[S ~string](str S) Iterator[pair[int, rune]] {
+	return &stringIter{str: string(str)}
 }
 
 func NewSliceIter[V any](slice []V) Iterator[pair[int, V]] {
